@@ -122,6 +122,8 @@ theorem usesE_rn (hν : Adm ν) (bs : List Name) : ∀ e : Expr,
     rw [rnStack_cons] at this
     simp only [rnE, usesE, usesE_rn hν bs coll, this, List.map_append]
   | .call f args => by simp only [rnE, usesE, usesE_rn hν bs f, usesEs_rn hν bs args, List.map_append]
+  | .pipe l f args => by
+    simp only [rnE, usesE, usesE_rn hν bs l, usesE_rn hν bs f, usesEs_rn hν bs args, List.map_append]
   | .builtin _ args => by simp only [rnE, usesE, usesEs_rn hν bs args]
   | .arrLit _ args _ => by simp only [rnE, usesE, usesEs_rn hν bs args]
   | .arrNew args _ => by simp only [rnE, usesE, usesEs_rn hν bs args]
